@@ -379,6 +379,14 @@ def _primitive_call(proj, m, body):
     return None
 
 
+def canonical_kinds(proj):
+    cm = proj.mod('numqi.sim.circuit')
+    bd = cm.bindings.get('CANONICAL_GATE_KIND')
+    if bd and bd[0] == 'assign' and isinstance(bd[1], ast.Set):
+        return {e.value for e in bd[1].elts if isinstance(e, ast.Constant)}
+    raise AnalysisError('numqi.sim.circuit.CANONICAL_GATE_KIND is no longer a literal set')
+
+
 def d1(proj, rep):
     rep.rule('D1', RULES['D1'])
     rep.rule('A1', RULES['A1'])
@@ -513,15 +521,77 @@ def d1(proj, rep):
                       f'circuit order contributes', tm, acc[0])
     else:
         rep.undecided('A3', bwd.qual, 'operator-gradient store not found', tm, bwd.node, text='op_grad store')
-    # shift_qubit_index_ / num_qubit coverage
-    for fq in ('numqi.sim.circuit.Circuit.shift_qubit_index_',):
-        f = proj.func(fq)
-        arms = _kind_arms(f.node)
-        for kind in sorted(canon):
-            n += 1
-            if kind in arms:
-                rep.ok('D1', f'{fq}[{kind}]', 'arm present', cm, arms[kind][0][0])
-            else:
-                rep.violation('D1', f'{fq}[{kind}]', f'no arm for canonical kind {kind!r}: its qubit indices are not shifted', cm, f.node, text=f'shift arm {kind}')
+    # shift_qubit_index_ coverage: every canonical kind is handled by an explicit arm or by the final else
+    n += shift_arms(proj, rep, canon)
     rep.count('D1.obligations', n)
+    return n
+
+
+RULES['D3'] = ('D3: Circuit.shift_qubit_index_ handles every kind in CANONICAL_GATE_KIND (explicit arm or the final else of the '
+               'kind chain) by rewriting the list entry with every qubit index shifted; the arm that handles measure gates also '
+               'updates the gate object\'s own `index` attribute, because MeasureGate.forward measures self.index, not the '
+               'list entry.')
+
+
+def shift_arms(proj, rep, canon):
+    rep.rule('D3', RULES['D3'])
+    fq = 'numqi.sim.circuit.Circuit.shift_qubit_index_'
+    f = proj.func(fq)
+    cm = f.module
+    # innermost kind chain
+    chain = None
+    for node in ast.walk(f.node):
+        if isinstance(node, ast.If):
+            t = node.test
+            if isinstance(t, ast.Compare) and isinstance(t.ops[0], ast.Eq) and ast.unparse(t.left).endswith('.kind') \
+                    and isinstance(t.comparators[0], ast.Constant):
+                par = getattr(node, '_parent', None)
+                if not (isinstance(par, ast.If) and node in par.orelse):
+                    chain = node
+                    break
+    n = 0
+    if chain is None:
+        rep.undecided('D3', fq, 'kind dispatch chain not found', cm, f.node, text='shift chain')
+        return 1
+    arms = {}
+    node = chain
+    else_body = None
+    while True:
+        arms[node.test.comparators[0].value] = node.body
+        if len(node.orelse) == 1 and isinstance(node.orelse[0], ast.If) and isinstance(node.orelse[0].test, ast.Compare) \
+                and ast.unparse(node.orelse[0].test.left).endswith('.kind'):
+            node = node.orelse[0]
+        else:
+            else_body = node.orelse
+            break
+    # does MeasureGate.forward read self.index ?
+    mg = proj.classes.get('numqi.sim.circuit.MeasureGate')
+    reads_own_index = False
+    if mg is not None and 'forward' in mg.methods:
+        reads_own_index = any(isinstance(x, ast.Attribute) and x.attr == 'index' and isinstance(x.value, ast.Name) and x.value.id == 'self'
+                              for x in ast.walk(mg.methods['forward'].node))
+    for kind in sorted(canon):
+        n += 1
+        body = arms.get(kind)
+        how = 'explicit arm'
+        if body is None and else_body:
+            body, how = else_body, 'else arm'
+        construct = f'{fq}[{kind}]'
+        if not body:
+            rep.violation('D3', construct, f'no arm handles canonical kind {kind!r}: its qubit indices are not shifted', cm, chain, text=f'shift arm {kind}')
+            continue
+        stores = [s for st in body for s in ast.walk(st) if isinstance(s, ast.Assign) and isinstance(s.targets[0], ast.Subscript)
+                  and 'gate_index_list' in ast.unparse(s.targets[0])]
+        if not stores:
+            rep.violation('D3', construct, f'{how} for {kind!r} does not rewrite the gate_index_list entry', cm, body[0], text=f'shift arm {kind}')
+            continue
+        if kind == 'measure' and reads_own_index:
+            upd = [s for st in body for s in ast.walk(st) if isinstance(s, ast.Assign) and isinstance(s.targets[0], ast.Attribute)
+                   and s.targets[0].attr == 'index']
+            if not upd:
+                rep.violation('D3', construct, f'{how} shifts the list entry of a measure gate but not the gate object\'s own `index`, which '
+                              f'MeasureGate.forward uses: after shifting, the circuit measures the old qubits', cm, stores[0], text='shift measure gate.index')
+                continue
+        rep.ok('D3', construct, f'{how} rewrites the entry' + (' and gate.index' if kind == 'measure' and reads_own_index else ''), cm, stores[0],
+               text=f'shift arm {kind}')
     return n
